@@ -9,7 +9,7 @@ ALNUM = b"0123456789ABCDEFGHIJKLMNOPQRSTUVWXYZ $%*+-./:"
 C39PLAIN = b"0123456789ABCDEFGHIJKLMNOPQRSTUVWXYZ-. $/+%"
 CBDATA = b"0123456789-$:/.+"
 ONED = ["EAN13", "EAN8", "UPCA", "UPCE", "C128", "C93", "C39", "ITF", "CBAR"]
-KEYS = ("op", "sym", "c", "ec", "rd", "th", "al", "h", "mg", "pad", "scale", "rot", "mir")
+KEYS = ("op", "sym", "c", "ec", "rd", "th", "al", "se", "cb", "h", "mg", "pad", "scale", "rot", "mir")
 # counterexamples found by earlier runs: (symbology, content, pad, scale, rot, TRY_HARDER, reader)
 REGRESSIONS = [("UPCE", "1694148", 10, 2, 180, 0, "own"), ("UPCE", "1694148", 10, 4, 270, 1, "multi"), ("UPCE", "0100242", 10, 2, 180, 0, "own")]
 SHOW = KEYS + ("werr", "w0", "h0", "lead", "trail", "w", "hh", "text", "err", "kind", "orient", "fmt", "mirf", "derr", "dkind", "panic")
@@ -82,7 +82,12 @@ def pose_event(case, c, rd, ec, h, mg=-1):
     al = 1 if case["sym"] == "ITF" and (case["pad"] + case["scale"] + case["rot"] // 90) % 2 == 0 else 0
     if al and (case["pad"] + case["rot"] // 90) % 3 == 0:
         c = list(c)[:4]          # a length only the hint allows (the reader's default lengths are 6, 8, .. 14 and longer)
-    return dict(op="pose", sym=case["sym"], c=list(c), ec=ec, rd=rd, th=case["th"], al=al, h=h, mg=mg, pad=case["pad"], scale=case["scale"],
+    # a result-point callback makes the 1-D retry logic rebuild the hints for the reversed row; Codabar's RETURN_CODABAR_START_END
+    # changes the answer, so a hint lost on the way shows
+    k = case["pad"] + case["scale"] + case["rot"] // 90 + len(c)
+    cb = 1 if k % 3 != 1 else 0
+    se = 1 if case["sym"] == "CBAR" and k % 2 == 0 else 0
+    return dict(op="pose", sym=case["sym"], c=list(c), ec=ec, rd=rd, th=case["th"], al=al, se=se, cb=cb, h=h, mg=mg, pad=case["pad"], scale=case["scale"],
                 rot=case["rot"], mir=case["mir"], b=[], bw=0, bh=0)
 
 
@@ -147,6 +152,9 @@ def build_inputs(ctx, cases):
         ec = 1 + k % 4
         for mir in (0, 1):
             ins.append(dict(op="qrmat", sym="QR", c=list(c), ec=ec, rd="own", th=0, h=0, mg=-1, pad=0, scale=1, rot=0, mir=mir, b=[], bw=0, bh=0))
+    # known finding C09-mirrored-1L-first-reading-accepted: the two inputs found so far (always replayed)
+    for text in ("EV9", "P1*L%TUQ+KZO9O"):
+        ins.append(dict(op="qrmat", sym="QR", c=list(text.encode()), ec=1, rd="own", th=0, h=0, mg=-1, pad=0, scale=1, rot=0, mir=1, b=[], bw=0, bh=0))
     # the driver's pixel transform against Pose.tla on seeded asymmetric pictures, every pose of the grid once
     poses = sorted({(x["pad"], x["scale"], x["rot"], x["mir"]) for x in cases})
     for k, (pad, scale, rot, mir) in enumerate(poses):
